@@ -8,8 +8,11 @@ rge            : local law  da/du = -beta(a)  (u = ln mu^2) at the reference poi
 expanded-order : |a_expanded - a_exact| under a_ref -> a_ref/2 at fixed u (absolute exponent)
 monotone       : a_s strictly decreasing along an increasing grid of scales (count of inversions)
 
-The matching scales are moved far away so that every scale lies in the reference patch, and all
-scales stay above m_tau^2 (three leptons).
+rge-tau-down/up: the same local law at a target on the other side of m_tau^2 from the reference
+                 (running QED: two leptons below, three above), 5-point difference around the target
+
+The matching scales are moved far away so that every scale lies in the reference patch; except in
+the rge-tau clauses all scales stay above m_tau^2 (three leptons).
 """
 
 import math
@@ -40,7 +43,7 @@ def _couplings(order, qed, running, method, nf, alphas, alphaem, muref):
     )
 
 
-def _beta_indep(a, order, qed, running, nf):
+def _beta_indep(a, order, qed, running, nf, nl=3):
     """(da_s/du, da_em/du) from the independent table."""
     a_s, a_em = a
     bs = c.beta_vec_indep(order, nf)
@@ -50,7 +53,7 @@ def _beta_indep(a, order, qed, running, nf):
     ds = -(a_s**2) * s
     if not running:
         return ds, 0.0
-    e = sum(c.beta_qed_indep(k, nf, 3) * a_em**k for k in range(qed))
+    e = sum(c.beta_qed_indep(k, nf, nl) * a_em**k for k in range(qed))
     e += c.beta_qed_mix_indep(nf) * a_s
     return ds, -(a_em**2) * e
 
@@ -93,6 +96,33 @@ def measure(cell, seed, npts):
                 res = max(res, abs(d[1] - de) / abs(de))
             else:
                 res = max(res, max(abs(a_of(u)[1] - sc.a_ref[1]) for u in (h, -h)) / sc.a_ref[1])
+        elif clause in ("rge-tau-down", "rge-tau-up"):
+            from eko import constants
+
+            mtau2 = constants.MTAU**2
+            h = 0.02   # around a far target every stencil point is its own ODE solution: a wider stencil averages the solver noise
+            for _try in range(50):
+                if clause == "rge-tau-down":   # reference above the tau mass, target below: two leptons there
+                    alphas = rng.uniform(0.08, 0.2)
+                    muref = math.exp(rng.uniform(math.log(2.2), math.log(30.0)))
+                    s_t, nl = mtau2 * math.exp(-rng.uniform(0.15, 0.6)), 2
+                else:
+                    alphas = rng.uniform(0.15, 0.3)
+                    muref = math.sqrt(mtau2 * math.exp(-rng.uniform(0.1, 0.5)))
+                    s_t, nl = mtau2 * math.exp(rng.uniform(0.3, 1.5)), 3
+                sc = _couplings(order, qed, running, method, nf, alphas, alphaem, muref)
+
+                def a_at(u):
+                    return np.array(sc.a(s_t * math.exp(u), nf), dtype=float)
+
+                lo = a_at(-2 * h)
+                if np.all(np.isfinite(lo)) and 0.0 < lo[0] < 0.04:   # perturbative range (alpha_s < 0.5) on the whole stencil
+                    break
+            else:
+                raise RuntimeError("no perturbative instance")
+            d = (-a_at(2 * h) + 8 * a_at(h) - 8 * a_at(-h) + a_at(-2 * h)) / (12 * h)
+            ds, de = _beta_indep(a_at(0.0), order, qed, running, nf, nl)
+            res = max(abs(d[0] - ds) / abs(ds), abs(d[1] - de) / abs(de))
         else:  # expanded-order
             u = rng.uniform(0.7, 2.0) * (1 if rng.random() < 0.7 else -0.3)
             d = []
